@@ -159,7 +159,8 @@ impl Context {
         loop {
             changed = false;
             passes += 1;
-            if passes > 256 {
+            // ...and one that contains it twice doubles the text at each pass
+            if passes > 256 || res.len() > (1 << 16) + s.len() {
                 break;
             }
             for (i, set) in self.regex_sets.iter().enumerate() {
